@@ -18,7 +18,8 @@ from harness.docs import C1
 def worker(kp, job):
     seed, idx = job
     rng = random.Random(seed * 141650939 + idx)
-    g = docs.gen_doc(rng, kern_only=True, core=True, max_spines=2, measures=rng.randint(2, 6), comments=(idx % 3 == 0), blanks=0,
+    # every fifth document leaves its splits open across barlines (cuts then fall inside a split region)
+    g = docs.gen_doc(rng, kern_only=True, core=(idx % 5 != 4), max_spines=2, measures=rng.randint(2, 6), comments=(idx % 3 == 0), blanks=0,
                      opening_barline=(idx % 4 != 0))
     g.nl = '\n'
     g.final_nl = False
@@ -84,7 +85,7 @@ def worker(kp, job):
                             continue
                         out = docs.impl_dumps(kp, doc, from_measure=lo, to_measure=hi)
                         if not out.startswith('ok:'):
-                            viol.append(('fragment-export', f'exporting pair {i} = ({lo},{hi}) raised {out}', {'fragments': ftexts, 'separator': sep}))
+                            viol.append(('fragment-export', ('open-split: ' if idx % 5 == 4 else '') + f'exporting pair {i} = ({lo},{hi}) raised {out}', {'fragments': ftexts, 'separator': sep}))
                             continue
                         # data lines of the fragment, in canonical form: export of the fragment rows by the oracle
                         fl = [l for l in ft.split('\n') if l]
